@@ -211,6 +211,15 @@ pub fn gen(seed: u64, thorough: bool) {
             }
         }
     }
+    // (c2) every small number-like token (up to 5 symbols over `0 1 . e E + -`; 6 in the thorough tier): the special cases of
+    // the digit machine for a leading zero (`0.0e`, `0e+`, `-0.`) each have their own syntax checks
+    for t in small_number_tokens(if thorough { 6 } else { 5 }) {
+        out.line(&format!("c02 {}", hex(&t)));
+        let mut a = b"[".to_vec();
+        a.extend_from_slice(&t);
+        a.extend_from_slice(b",1]");
+        out.line(&format!("c02 {}", hex(&a)));
+    }
     // (c1) numbers around the largest finite double at every digit count of the mantissa: "every number is finite as f64"
     for (n, t) in overflow_boundary().into_iter().enumerate() {
         if !thorough && n % 3 != 0 {
